@@ -732,6 +732,8 @@ def run(ctx):
 
 
 SELFTEST = [
+    ('add-zero-returns-self', 'pyerrors/obs.py', '            if isinstance(y, np.ndarray):\n                return np.array([self + o for o in y])', '            if isinstance(y, np.ndarray):\n                return np.array([self + o for o in y])\n            elif y == 0:\n                return self', 'C03-D5'),
+    ('dtauint-without-abs', 'pyerrors/obs.py', 'np.sqrt(np.abs(np.arange(w_max) + 0.5 - self.e_n_tauint[e_name]) / e_N)', 'np.sqrt((np.arange(w_max) + 0.5 - self.e_n_tauint[e_name]) / e_N)', 'C03-D6'),
     ('global-default-snapshot', 'pyerrors/obs.py', "                        getattr(self, kwarg_name)[e_name] = getattr(Obs, kwarg_name + '_global')", '                        getattr(self, kwarg_name)[e_name] = Obs._frozen[kwarg_name]', 'C03-D3'),
     ('variance-guard-eps', 'pyerrors/obs.py', "< 10 * np.finfo(float).tiny:", "< 1e-25:", 'C03-D8'),
     ('pair-count-cache', 'pyerrors/obs.py', "                gamma_div += self._calc_gamma(np.ones((self.shape[r_name])), self.idl[r_name], self.shape[r_name], w_max, fft, gapsize)", "                key_ = (self.idl[r_name][0], len(self.idl[r_name]), w_max)\n                if key_ not in Obs._div_cache:\n                    Obs._div_cache[key_] = self._calc_gamma(np.ones((self.shape[r_name])), self.idl[r_name], self.shape[r_name], w_max, fft, gapsize)\n                gamma_div += Obs._div_cache[key_]", None),
